@@ -105,6 +105,29 @@ TYPE_PREDS = ["int", "str", "bool", "C", "D", "Abs", "Impl", "ConcreteABC", "Sub
 def fld(name, tp=int):
     return InputFieldLoc(type=tp, field_id=name, default=NoDefault(), metadata={}, is_required=True)
 
+# special forms as predicates (Union, None, Literal, Annotated) and equivalent spellings of union / None hints as locations
+SF_PREDS = {"Union": typing.Union, "None": None, "NoneType": type(None), "Literal": typing.Literal, "Opt_int": typing.Optional[int], "pipe_int_none": int | None,
+            "Lit_None": typing.Literal[None], "U_int_str": typing.Union[int, str], "U_str_int": typing.Union[str, int], "Annotated": typing.Annotated}
+SF_LOCS = {"Opt_int": typing.Optional[int], "pipe_int_none": int | None, "pipe_none_int": None | int, "U_int_str": typing.Union[int, str], "pipe_str_int": str | int,
+           "NoneType": type(None), "None": None, "Lit_None": typing.Literal[None], "Lit_a": typing.Literal["a"], "Ann_opt": typing.Annotated[typing.Optional[int], "m"],
+           "int": int, "Opt_U": typing.Optional[typing.Union[int, str]]}
+_UNIONS = ("Opt_int", "pipe_int_none", "pipe_none_int", "U_int_str", "pipe_str_int", "Opt_U")
+_NONES = ("NoneType", "None", "Lit_None")
+SF_EXPECT = {"Union": _UNIONS, "None": _NONES, "NoneType": _NONES, "Lit_None": _NONES, "Literal": ("Lit_a",), "Opt_int": ("Opt_int", "pipe_int_none", "pipe_none_int"),
+             "pipe_int_none": ("Opt_int", "pipe_int_none", "pipe_none_int"), "U_int_str": ("U_int_str", "pipe_str_int"), "U_str_int": ("U_int_str", "pipe_str_int"),
+             "Annotated": ("Ann_opt",)}
+def chk_special_form(pred, loc):
+    """a special form matches every hint of that form however it is spelled; checked standalone, through P[...], negated, and combined with another checker"""
+    tp, exp = SF_PREDS[pred], loc in SF_EXPECT[pred]
+    ch = create_loc_stack_checker(tp)
+    chp = P[tp].build_loc_stack_checker()
+    for st in (LocStack(TypeHintLoc(type=SF_LOCS[loc])), LocStack(TypeHintLoc(type=C), fld("x", SF_LOCS[loc]))):
+        if ch.check_loc_stack(None, st) != exp or chp.check_loc_stack(None, st) != exp: return False
+        if (~P[tp]).build_loc_stack_checker().check_loc_stack(None, st) != (not exp): return False
+        if (P[tp] & ~P[bytes]).build_loc_stack_checker().check_loc_stack(None, st) != exp: return False
+    if P[C][tp].build_loc_stack_checker().check_loc_stack(None, LocStack(TypeHintLoc(type=C), fld("x", SF_LOCS[loc]))) != exp: return False
+    return True
+
 STR_PREDS = ("a", "ab", "a_1", "a|bc", "a.", "a+", "[ab]c", "a?b", "_", "a1")
 def ref_str_match(pred, s):
     """independent statement of: identifier -> exact match, otherwise full regex match"""
@@ -205,10 +228,19 @@ def nat_type_matrix():
         for loc in TYPES:
             ev += 1
             if not chk_type_matrix(pred, loc): bad.append({"pred": repr(pred), "loc": repr(loc)})
+    for pred in SF_PREDS:
+        for loc in SF_LOCS:
+            ev += 1
+            try:
+                ok = chk_special_form(pred, loc)
+            except Exception as e:
+                ok = False
+            if not ok: bad.append({"pred": repr("sf:" + pred), "loc": repr(loc)})
     return {"status": "REFUTED" if bad else "CONFIRMED", "cexs": bad[:5], "evaluations": ev,
             "note": "labelled enumeration: class predicate x location type matrix (no data dimension)"}
 
 def chk_type_matrix(pred, loc):
+    if pred.startswith("sf:"): return chk_special_form(pred[3:], loc)
     ch = create_loc_stack_checker(TYPES[pred])
     chp = P[TYPES[pred]].build_loc_stack_checker()
     exp = expected_type_match(pred, loc)
